@@ -53,10 +53,110 @@ def _alts(stmts):
     return res
 
 
+def _boolean_locals(fnode):
+    """local names every assignment of which is a comparison, a negation, a
+    boolean combination of those or a bool literal (so a truthiness test on
+    the name tells its exact value)"""
+    vals = {}
+    for n in ast.walk(fnode):
+        if isinstance(n, ast.Assign):
+            for tg in n.targets:
+                if isinstance(tg, ast.Name):
+                    vals.setdefault(tg.id, []).append(n.value)
+                elif isinstance(tg, (ast.Tuple, ast.List)):
+                    for e in tg.elts:
+                        if isinstance(e, ast.Name):
+                            vals.setdefault(e.id, []).append(None)
+        elif isinstance(n, (ast.AugAssign, ast.AnnAssign)) and isinstance(
+                n.target, ast.Name):
+            vals.setdefault(n.target.id, []).append(None)
+        elif isinstance(n, (ast.For, ast.comprehension)):
+            for e in ast.walk(n.target):
+                if isinstance(e, ast.Name):
+                    vals.setdefault(e.id, []).append(None)
+    params = {a.arg for a in fnode.args.args + fnode.args.kwonlyargs} \
+        if hasattr(fnode, "args") else set()
+
+    def boolean(v):
+        if v is None:
+            return False
+        if isinstance(v, ast.Compare):
+            return all(isinstance(o, (ast.Lt, ast.LtE, ast.Gt, ast.GtE,
+                                      ast.Eq, ast.NotEq, ast.Is, ast.IsNot,
+                                      ast.In, ast.NotIn)) for o in v.ops) \
+                and len(v.ops) == 1 and not _maybe_array(v)
+        if isinstance(v, ast.UnaryOp) and isinstance(v.op, ast.Not):
+            return True
+        if isinstance(v, ast.Constant):
+            return isinstance(v.value, bool)
+        if isinstance(v, ast.BoolOp):
+            return all(boolean(x) for x in v.values)
+        return False
+    return {k for k, vs in vals.items()
+            if k not in params and vs and all(boolean(v) for v in vs)}
+
+
+def _is_boolean_expr(v):
+    if v is None:
+        return False
+    if isinstance(v, ast.Compare):
+        return len(v.ops) == 1 and not _maybe_array(v)
+    if isinstance(v, ast.UnaryOp) and isinstance(v.op, ast.Not):
+        return True
+    if isinstance(v, ast.Constant):
+        return isinstance(v.value, bool)
+    if isinstance(v, ast.BoolOp):
+        return all(_is_boolean_expr(x) for x in v.values)
+    return False
+
+
+def _maybe_array(cmp):
+    """a comparison whose operands could be arrays (element-wise result):
+    conservative - subscripts, attribute calls and arithmetic on anything
+    that is not a plain name / constant / .sum() style reduction"""
+    for side in [cmp.left] + list(cmp.comparators):
+        if isinstance(side, (ast.Name, ast.Constant)):
+            continue
+        return True
+    return False
+
+
 class _Pick(ast.NodeTransformer):
-    def __init__(self, choice):
+    def __init__(self, choice, bool_names=frozenset()):
         self.choice = choice
         self.conds = []
+        self.bool_names = bool_names
+        self.last = {}      # name -> value of its latest plain assignment
+                            # on the path being built (None: unknown)
+
+    def visit_Assign(self, node):
+        for tg in node.targets:
+            if isinstance(tg, ast.Name):
+                self.last[tg.id] = node.value
+            else:
+                for e in ast.walk(tg):
+                    if isinstance(e, ast.Name) and isinstance(
+                            e.ctx, ast.Store):
+                        self.last[e.id] = None
+        return node
+
+    def visit_AugAssign(self, node):
+        if isinstance(node.target, ast.Name):
+            self.last[node.target.id] = None
+        return node
+
+    def visit_For(self, node):
+        for e in ast.walk(getattr(node, "target", None) or ast.Pass()):
+            if isinstance(e, ast.Name):
+                self.last[e.id] = None
+        # names stored in the body are unknown afterwards (and inside)
+        for n in ast.walk(node):
+            if isinstance(n, ast.Name) and isinstance(n.ctx, ast.Store):
+                self.last[n.id] = None
+        self.generic_visit(node)
+        return node
+
+    visit_While = visit_For
 
     def visit_If(self, node):
         tag = getattr(node, "_pv_tag", None)
@@ -68,6 +168,19 @@ class _Pick(ast.NodeTransformer):
         self.conds.append((node.test, outcome))
         arm = node.body if outcome else node.orelse
         out = [ev]
+        # branch refinement: inside the arm of  if flag: / if not flag:
+        # a boolean-valued local flag has the value the test found
+        t, val = node.test, outcome
+        while isinstance(t, ast.UnaryOp) and isinstance(t.op, ast.Not):
+            t, val = t.operand, not val
+        if isinstance(t, ast.Name) and (
+                t.id in self.bool_names
+                or _is_boolean_expr(self.last.get(t.id))):
+            asg = ast.Assign(targets=[ast.Name(id=t.id, ctx=ast.Store())],
+                             value=ast.Constant(value=bool(val)))
+            ast.copy_location(asg, node)
+            ast.fix_missing_locations(asg)
+            out.append(asg)
         for s in arm:
             r = self.visit(s)
             out.extend(r if isinstance(r, list) else [r])
@@ -106,7 +219,7 @@ def path_variants(fnode, within=None):
                                    else within.body):
             ch = {st._pv_tag: o for st, o in choice}
             cp = copy.deepcopy(fnode)
-            p = _Pick(ch)
+            p = _Pick(ch, _boolean_locals(fnode))
             cp = p.visit(cp)
             # unreachable tail after a return / raise stays; DefUse handles it
             ast.fix_missing_locations(cp)
